@@ -344,6 +344,7 @@ const DIRECTED: &[(&str, &str, &str)] = &[
     ("later_stanzas_begin_with_bare_words", "(module) { node n }\n_ @any { node n attr (n) k = (node-type @any) }\n\"pass\" @kw { node n attr (n) t = (source-text @kw) }\n[(identifier) (integer)] @leaf { node n attr (n) l = (source-text @leaf) }\nleft: (identifier) @x { node n attr (n) lx = (source-text @x) }\n_ @w { node n attr (n) w = (start-row @w) }", "x = 1\npass\n"),
     ("unknown_field_name_at_start_of_query", "(module) { node n }\n  nosuchfield: (identifier) @x { node n }", "x = 1\n"),
     ("unknown_field_name_as_first_byte_of_file", "nosuchfield: (identifier) @x { node n }", "x = 1\n"),
+    ("long_multibyte_string_constants", "(module) { node n attr (n) a = \"日本語日本語日本語日本語日本語日本語日本語日本語日本語日本語日本語日本語\", b = \"x日本語日本語日本語日本語日本語日本語日本語日本語日本語日本語日本語日本語\", c = \"xy日本語日本語日本語日本語日本語日本語日本語日本語日本語日本語日本語日本語\" print \"日本語日本語日本語日本語日本語日本語日本語日本語日本語日本語日本語日本語\", \"é日本語日本語日本語日本語日本語日本語日本語日本語日本語日本語日本語日本語\" let s = \"xyz😀日本語日本語日本語日本語日本語日本語日本語日本語日本語日本語日本語日本語\" scan \"日本語日本語日本語日本語日本語日本語日本語日本語日本語日本語日本語日本語\" { \"日本語日本語日本語日本語日本語日本語日本語日本語日本語日本語日本語日本語\" { print $0 } } }", "pass\n"),
     ("plus_on_top_of_star_quantifier", "(identifier)*+ @xs { node n attr (n) x = @xs }", "x = y\n"),
 ];
 
